@@ -511,3 +511,220 @@ func guardStats(P *Prog, sub string) {
 		}
 	}
 }
+
+// ---------------------------------------------------------------------------
+// The rule.  guardTable is the frozen result of the discovery pass (-guardstats): for every
+// field listed, the lock classes under which ALL its accesses outside constructors are made on
+// the confirmed tree, except the (function, field) pairs of guardExceptions, each read and given
+// a reason.  A new access without the lock, a lock region that no longer covers an access, a
+// caller of a callers-hold function that does not hold the lock: all are reported at the access,
+// with the call sites that reach the function without the lock.
+// ---------------------------------------------------------------------------
+
+type guardSpec struct {
+	any       []string // lock classes, any of which protects the field
+	writeExcl []string // classes that must be held EXCLUSIVELY for a write (nil: same as any, mode W)
+	sharedW   bool     // writes are made under a shared (read) hold by design
+}
+
+const (
+	lkCtl  = "controller.Controller.RWMutex"
+	lkSrv  = "replica.Server.RWMutex"
+	lkRep  = "replica.Replica.RWMutex"
+	lkRev  = "replica.Replica.revisionLock"
+	lkWR   = "rpc.Wire.ReadLock"
+	lkWW   = "rpc.Wire.WriteLock"
+	lkAgnt = "sync/agent.Server.Mutex"
+)
+
+func ctlFields(typ string, fs ...string) map[string]guardSpec {
+	m := map[string]guardSpec{}
+	for _, f := range fs {
+		m[typ+"."+f] = guardSpec{any: []string{lkCtl}}
+	}
+	return m
+}
+
+var guardTable = func() map[string]guardSpec {
+	m := map[string]guardSpec{}
+	add := func(x map[string]guardSpec) {
+		for k, v := range x {
+			m[k] = v
+		}
+	}
+	add(ctlFields("controller.Controller", "replicas", "quorumReplicas", "backend", "ReadOnly", "Checkpoint", "RWReplicaCount", "MaxRevReplica", "StartSignalled", "RegisteredReplicas", "RegisteredQuorumReplicas", "quorumReplicaCount", "size", "IsSnapDeletionInProgress"))
+	add(ctlFields("controller.replicator", "backends", "quorumBackends", "readers", "writer", "next", "readerIndex", "writerIndex", "updaterIndex", "backendsAvailable"))
+	add(ctlFields("controller.MultiWriterAt", "writers", "updaters"))
+	add(ctlFields("types.Replica", "Mode"))
+	m["replica.Server.r"] = guardSpec{any: []string{lkSrv}}
+	rep := guardSpec{any: []string{lkRep, lkSrv}}
+	for _, f := range []string{"replica.Replica.mode", "replica.Replica.diskData", "replica.Replica.activeDiskData", "replica.Replica.diskChildrenMap", "replica.Replica.info", "replica.Replica.volume",
+		"replica.diffDisk.files", "replica.diffDisk.UserCreatedSnap", "replica.diffDisk.SnapIndx",
+		"replica.disk.Parent", "replica.disk.Removed", "replica.disk.UserCreated", "replica.disk.Name",
+		"replica.Info.Head", "replica.Info.Parent", "replica.Info.Size", "replica.Info.Dirty", "replica.Info.Rebuilding", "replica.Info.Checkpoint"} {
+		m[f] = rep
+	}
+	// the block map is filled in by writes, which hold the replica lock shared (the data path is
+	// serialised per block by the RPC layer / rmLock)
+	m["replica.diffDisk.location"] = guardSpec{any: []string{lkRep, lkSrv}, sharedW: true}
+	m["replica.Replica.revisionCache"] = guardSpec{any: []string{lkRev}}
+	m["replica.Replica.revisionFile"] = guardSpec{any: []string{lkRev}}
+	m["rpc.Wire.reader"] = guardSpec{any: []string{lkWR}}
+	m["rpc.Wire.writer"] = guardSpec{any: []string{lkWW}}
+	for _, f := range []string{"processes", "processesByPort", "currentPort", "processCounter"} {
+		m["sync/agent.Server."+f] = guardSpec{any: []string{lkAgnt}}
+	}
+	return m
+}()
+
+func (sp guardSpec) satisfied(h map[string]byte, write bool) bool {
+	for _, cl := range sp.any {
+		mode, ok := h[cl]
+		if !ok {
+			continue
+		}
+		if !write || sp.sharedW || mode == 'W' {
+			return true
+		}
+	}
+	return false
+}
+
+// guardExceptions: "function | field" -> reason.  Accesses of the confirmed tree that are made
+// without the lock; each was read.
+var guardExceptions = map[string]string{
+	"(*controller.Controller).GetSize | controller.Controller.size":                   "word-sized value read for the frontend geometry / statistics; no decision of a listed property is taken on it",
+	"(*controller.Controller).Size | controller.Controller.size":                      "word-sized value read for the frontend geometry / statistics",
+	"(*controller.Controller).ListReplicas | controller.Controller.replicas":          "hands out the slice for listing; REST handlers that act on the result (delete, snapshot guards) take the controller lock around the call themselves",
+	"(*controller.Controller).Revert | controller.Controller.replicas":                "pre-existing: the 'all replicas RW, none rebuilding' test is made before the lock because the frontend has to be shut down without it (in-flight I/O needs the lock); recorded in DESIGN.md, observations",
+	"(*controller.Controller).clientsAndSnapshot | controller.Controller.replicas":    "pre-existing: called by Revert before the lock, same reason",
+	"(*controller.Controller).signalToAdd | controller.Controller.MaxRevReplica":      "unused function (no caller)",
+	"(*controller/rest.Server).GetVolumeStats | controller.Controller.ReadOnly":       "statistics endpoint: reports the flag, decides nothing",
+	"(*controller/rest.Server).listVolumes | controller.Controller.ReadOnly":          "volume listing: reports the flag, decides nothing",
+	"app.checkPrerequisites | controller.Controller.IsSnapDeletionInProgress":         "auto-snapshot-deletion goroutine polls the flag; the admission path (canAdd) reads it under the lock",
+	"(*replica.Replica).GetUsage | replica.Replica.revisionCache":                     "statistics: reports the cached counter (C10-REV lists the readers that are allowed to skip revisionLock)",
+	"(*replica.Server).Stats | replica.Replica.revisionCache":                         "statistics: reports the cached counter",
+	"(*replica.Replica).Info | replica.Replica.info":                                  "returns a copy of the info block; used by Status and the REST read-only routes (C17-SRV-GUARD callers-hold table)",
+	"(*replica.Replica).Sync | replica.Info.Dirty":                                    "idempotent store of true under the shared hold (data path)",
+	"(*replica.Replica).Unmap | replica.Info.Dirty":                                   "idempotent store of true under the shared hold (data path)",
+	"(*replica.Replica).WriteAt | replica.Info.Dirty":                                 "idempotent store of true under the shared hold (data path)",
+	"(*replica.Replica).removeStaleFromChildrenMap | replica.Replica.diskChildrenMap": "unused function (no caller)",
+	"(*replica.Replica).rmChildDisk | replica.Replica.diskChildrenMap":                "unlocked only through the unused removeStaleFromChildrenMap; its other caller holds the replica lock",
+	"(*replica.Server).Replica | replica.Server.r":                                    "accessor used by the replica process' own goroutines (sync agent, cleaner), C17-SRV-GUARD callers-hold table",
+	"(*replica.Server).Status | replica.Server.r":                                     "state for the action table is sampled without the lock (C17-SRV-GUARD callers-hold table): the operations re-check under the server lock",
+	"(*replica.UsedGenerator).findExtents | replica.diffDisk.location":                "generator goroutine of preload: reads the map of the diffDisk being preloaded (a private copy in UpdateLUNMap, an unshared instance during open)",
+	"replica.construct | replica.disk.Parent":                                         "constructor: the instance is not shared yet",
+	"replica.preload | replica.diffDisk.UserCreatedSnap":                              "preload works on a private copy (UpdateLUNMap) or on an instance under construction",
+	"replica.preload | replica.diffDisk.files":                                        "preload works on a private copy (UpdateLUNMap) or on an instance under construction",
+	"replica.preload | replica.diffDisk.location":                                     "preload works on a private copy (UpdateLUNMap) or on an instance under construction",
+}
+
+func ruleGuardedBy(rule string) ruleFn {
+	return func(c *Ctx) {
+		c.Doc(rule, "lock-class analysis: every read / write of a lock-protected field (frozen table: membership and quorum state of the Controller and its replicator, Server.r, the chain state of a Replica and its diffDisk, the revision cache, the wire's reader / writer, the sync agent's process table) happens with the protecting mutex class held on ALL paths (in the function itself, or at every call site of it, transitively); writes need the exclusive hold; constructors (fresh object, init-only helpers) are exempt; pre-existing unlocked accesses are an exception table with reasons")
+		G := guardInfo(c.P)
+		type grp struct {
+			fn    *ssa.Function
+			field string
+			write bool
+		}
+		bad := map[grp][]gbAccess{}
+		all := map[grp]int{}
+		for _, a := range G.Accesses {
+			sp, ok := guardTable[a.Field]
+			if !ok || a.Fresh {
+				continue
+			}
+			g := grp{a.Fn, a.Field, a.Write}
+			all[g]++
+			if !sp.satisfied(a.Held, a.Write) {
+				bad[g] = append(bad[g], a)
+			}
+		}
+		var gs []grp
+		for g := range all {
+			gs = append(gs, g)
+		}
+		sort.Slice(gs, func(i, j int) bool {
+			if FnName(gs[i].fn) != FnName(gs[j].fn) {
+				return FnName(gs[i].fn) < FnName(gs[j].fn)
+			}
+			if gs[i].field != gs[j].field {
+				return gs[i].field < gs[j].field
+			}
+			return !gs[i].write && gs[j].write
+		})
+		usedExc := map[string]bool{}
+		for _, g := range gs {
+			mode := "read"
+			if g.write {
+				mode = "write"
+			}
+			key := fmt.Sprintf("%s | %s %s", FnName(g.fn), mode, g.field)
+			ek := FnName(g.fn) + " | " + g.field
+			bs := bad[g]
+			if len(bs) == 0 {
+				c.OK(rule, key, c.P.Pos(g.fn.Pos()), fmt.Sprintf("%d access(es) under %s", all[g], strings.Join(guardTable[g.field].any, " or ")), true)
+				continue
+			}
+			if why, ok := guardExceptions[ek]; ok {
+				usedExc[ek] = true
+				c.OK(rule, key, c.P.InstrPos(bs[0].In), "exception: "+why, false)
+				continue
+			}
+			a := bs[0]
+			detail := fmt.Sprintf("%s of %s without %s held on every path (held here: [%s])", mode, g.field, strings.Join(guardTable[g.field].any, " or "), heldStr(a.Held))
+			if g.write && len(a.Held) > 0 {
+				detail += "; a write needs the exclusive hold"
+			}
+			if blame := G.blame(g.fn, guardTable[g.field], g.write, 3); blame != "" {
+				detail += "; reached without the lock through " + blame
+			}
+			c.Bad(rule, key, c.P.InstrPos(a.In), detail, nil)
+		}
+		c.Floor(rule, 150)
+	}
+}
+
+// blame: call sites through which fn is entered without the lock (up to depth levels up).
+func (G *GuardInfo) blame(fn *ssa.Function, sp guardSpec, write bool, depth int) string {
+	if depth == 0 || sp.satisfied(G.Entry[fn], write) {
+		return ""
+	}
+	var parts []string
+	for _, caller := range prodFns(G.P) {
+		res := G.res[caller]
+		if res == nil {
+			continue
+		}
+		eachInstr(caller, func(in ssa.Instruction) {
+			cl, ok := in.(ssa.CallInstruction)
+			if !ok || len(parts) >= 3 {
+				return
+			}
+			for _, g := range G.P.Callees(cl) {
+				if g != fn {
+					continue
+				}
+				h := classHeld(res, in)
+				for k, v := range G.Entry[caller] {
+					if h[k] != 'W' {
+						h[k] = v
+					}
+				}
+				_, isGo := in.(*ssa.Go)
+				if isGo || !sp.satisfied(h, write) {
+					what := "call"
+					if isGo {
+						what = "go statement"
+					}
+					parts = append(parts, fmt.Sprintf("%s in %s @%s", what, FnName(caller), G.P.InstrPos(in)))
+				}
+			}
+		})
+	}
+	if len(parts) == 0 {
+		return "an entry point (no caller in this module holds it)"
+	}
+	return strings.Join(parts, ", ")
+}
